@@ -22,9 +22,11 @@ from hypothesis import strategies as st
 from hio.core import tcp
 from hio.core.tcp import clienting as tcpc
 from hio.core.tcp import serving as tcps
+from vlib import netns
 from vlib.core import Result, assert_in_tree, exc_sig
 
 assert_in_tree(tcpc, tcps)
+ISOLATED = netns.isolate()       # own loopback: no other process can hold or take a port of a case
 
 PID = "C11"
 RULE = ("cases: server kind (plain / TLS) x <= 14 operations (raw client connect, TLS hello leaving the handshake pending, finish "
@@ -36,6 +38,8 @@ ASSUMPTIONS = [
     "Linux loopback; descriptors are read from /proc/self/fd; CPython reference counting closes sockets nobody references, so only "
     "descriptors still referenced by the endpoint (or leaked into a cycle) are observable",
     "a step that does not settle within 200 service calls is recorded as inconclusive, never as a violation",
+    "the check process moves itself into a private network namespace (own loopback) when it may, so that ports cannot be taken "
+    "by other processes; otherwise a port the harness itself cannot bind makes the case inconclusive",
 ]
 
 CERTS = "/repo/tests/core/tcp/certs"
@@ -96,8 +100,13 @@ def run_server_case(case, r):
             # another listener owns the port: the first open fails; what open() created must be released again, by
             # the failed open itself or at the latest by close()
             blocker = socket.socket(socket.AF_INET, socket.SOCK_STREAM)
-            blocker.bind(("127.0.0.1", port))
-            blocker.listen(1)
+            try:
+                blocker.bind(("127.0.0.1", port))
+                blocker.listen(1)
+            except OSError:
+                blocker.close()
+                r.notes = "harness could not take the port (shared network namespace)"
+                return
             try:
                 opened = server.reopen()
                 if not opened:
